@@ -22,6 +22,7 @@ fn gen_case(rng: &mut Rng, thorough: bool) -> Value {
            "invalid": rng.below(3) != 0, "invalid_seed": rng.next() % 1_000_000,
            // an `exp` already among the claims, an earlier expiry request that the later one must replace, and a
            // new request between the second and the third encode()
+           "kb": rng.chance(1, 4),
            "exp_pre": if rng.chance(1, 5) { json!(*rng.pick(&[1_570_000_000i64, 4_000_000_000, 0])) } else { Value::Null },
            "exp_first": if rng.chance(1, 5) { json!(*rng.pick(&[5i64, 86_400, 7])) } else { Value::Null },
            "exp_mid": if rng.chance(1, 5) { json!(*rng.pick(&[120i64, 86_400, 3])) } else { Value::Null }})
@@ -102,6 +103,8 @@ pub fn run_case(ctx: &mut Ctx, case: &Value) {
     let exp_pre = case["exp_pre"].as_i64();
     let exp_first = case["exp_first"].as_i64().filter(|_| exp_in.is_some());
     let exp_mid = case["exp_mid"].as_i64();
+    let kb = case["kb"].as_bool().unwrap_or(false);
+    let jwk = keys::holder_jwk();
     if let (Some(e), Some(o)) = (exp_pre, claims.as_object_mut()) {
         // only when no path addresses the member
         if !paths.iter().any(|p| p == "/exp" || p.starts_with("/exp/")) { o.insert("exp".into(), json!(e)); }
@@ -134,6 +137,7 @@ pub fn run_case(ctx: &mut Ctx, case: &Value) {
         let mut issuer = Issuer::new(claims.clone())?;
         for p in &paths { issuer.disclosable(p); }
         if let Some(d) = decoy { issuer.decoy(d); }
+        if kb { issuer.require_key_binding(sdjwt::Jwk::from_value(jwk.clone())?); }
         let mut h = Header::new(Algorithm::HS256);
         h.typ = Some("sd-jwt".into());
         issuer.header(h);
@@ -156,7 +160,7 @@ pub fn run_case(ctx: &mut Ctx, case: &Value) {
             ctx.report.bump("encode:panic");
             ctx.report.diff("property", "Issuer::encode", &format!("Issuer::encode:panic:{}", site.split(' ').next().unwrap_or("")), &c2, json!({"panic": site, "kind": kind}));
             // the model must predict it too
-            let m = ctx.driver.ask(&json!({"op":"issue","claims":claims,"paths":paths,"discs":Value::Null,"decoys":Value::Null,"cnf":Value::Null}));
+            let m = ctx.driver.ask(&json!({"op":"issue","claims":claims,"paths":paths,"discs":Value::Null,"decoys":Value::Null,"cnf":if kb { jwk.clone() } else { Value::Null }}));
             if m.get("panic").is_none() {
                 ctx.report.diff("correspondence", "Issuer::encode", "Issuer::encode:real-panic:model-not", &c2, json!({"model": m}));
             }
@@ -190,7 +194,7 @@ pub fn run_case(ctx: &mut Ctx, case: &Value) {
         Err(_) => (Value::Null, Value::Null),
     };
     // decoys actually drawn: what the top-level `_sd` holds beyond the model's own digests — ask twice
-    let probe = ctx.driver.ask(&json!({"op":"issue","claims":claims,"paths":paths,"discs":discs0,"decoys":Value::Null,"cnf":Value::Null}));
+    let probe = ctx.driver.ask(&json!({"op":"issue","claims":claims,"paths":paths,"discs":discs0,"decoys":Value::Null,"cnf":if kb { jwk.clone() } else { Value::Null }}));
     let model_first = if first_ok {
         let own: Vec<Value> = probe["ok"]["payload"]["_sd"].as_array().cloned().unwrap_or_default();
         let actual: Vec<Value> = payload0["_sd"].as_array().cloned().unwrap_or_default();
@@ -203,7 +207,7 @@ pub fn run_case(ctx: &mut Ctx, case: &Value) {
         } else if !drawn.is_empty() {
             ctx.report.diff("property", "Issuer::encode", "Issuer::encode:decoy-count", &c2, json!({"max": Value::Null, "drawn": drawn.len()}));
         }
-        ctx.driver.ask(&json!({"op":"issue","claims":claims,"paths":paths,"discs":discs0,"decoys":drawn,"cnf":Value::Null}))
+        ctx.driver.ask(&json!({"op":"issue","claims":claims,"paths":paths,"discs":discs0,"decoys":drawn,"cnf":if kb { jwk.clone() } else { Value::Null }}))
     } else { probe };
     let mclass = if model_first.get("ok").is_some() { "ok" } else if model_first.get("err").is_some() { "err" } else { "panic" };
     if (mclass == "ok") != first_ok {
@@ -227,6 +231,12 @@ pub fn run_case(ctx: &mut Ctx, case: &Value) {
             let hv = real::holder_verify(t, &dec, &validation);
             let mut expected = claims.clone();
             let p = real::peek_jwt(&split_token(t).0).map(|x| x.1).unwrap_or(Value::Null);
+            if kb {
+                expected["cnf"] = jwk.clone();
+                if p.get("cnf") != Some(&jwk) {
+                    ctx.report.diff("property", "Issuer::encode", "Issuer::encode:repeat-output-cnf", &c2, json!({"encode": round + 1, "cnf": p.get("cnf")}));
+                }
+            }
             if let Some(e) = p.get("exp") {
                 if claims.get("exp").is_none() || exp_in.is_some() { expected["exp"] = e.clone(); }
                 if let (Some(n), Some(ev)) = (exp_in, e.as_i64()) {
@@ -257,7 +267,7 @@ pub fn run_case(ctx: &mut Ctx, case: &Value) {
 }
 
 pub fn run(ctx: &mut Ctx, replay: Option<&Value>) {
-    ctx.report.rule = "random claims objects x valid descendants-first markings (incl. only-nested / only-array) x decoy maxima in [-3,50] x optional expiry (also on claims that already carry an `exp`, requested twice, and requested anew between the second and third encode()), one third unchanged and two thirds with exactly one extra path of a random kind at a random position (unknown member, index out of range, non-numeric / overflowing index, no leading slash, path inside an already disclosed claim, bad escape; and repeated path, '+' and leading-zero indices which only the model decides); 3 encode() calls per issuer object with its Debug rendering compared before/after, every valid output verified by Holder::verify; Ok/Err class and payload compared with the Impl model of the issuer; non-trivial = distinct (tree, path list, decoy maximum)".to_string();
+    ctx.report.rule = "random claims objects x valid descendants-first markings (incl. only-nested / only-array) x decoy maxima in [-3,50] x key binding (1 in 4) x optional expiry (also on claims that already carry an `exp`, requested twice, and requested anew between the second and third encode()), one third unchanged and two thirds with exactly one extra path of a random kind at a random position (unknown member, index out of range, non-numeric / overflowing index, no leading slash, path inside an already disclosed claim, bad escape; and repeated path, '+' and leading-zero indices which only the model decides); 3 encode() calls per issuer object with its Debug rendering compared before/after, every valid output verified by Holder::verify; Ok/Err class and payload compared with the Impl model of the issuer; non-trivial = distinct (tree, path list, decoy maximum)".to_string();
     if let Some(case) = replay {
         run_case(ctx, case);
         return;
